@@ -197,4 +197,77 @@ func init() {
 			return []float64{sms, gw, sms + gw}
 		},
 	})
+
+	// Sacramento: OW-SPEC ranges, capacities at least a few mm (the code divides by lztwm, alzfpm, alzfsm, uzfwm),
+	// pctim + adimp ≤ 1 (area fractions), at least one positive unit-hydrograph proportion.
+	regModel(&ModelGen{Name: "Sacramento",
+		Params: sacParams,
+		Inputs: func(r *Rng, T int, p []float64) [][]float64 { return RainPet(r, T) },
+		// "initial states produced by the model itself": the final state of a warm-up run of the real model from
+		// its own initial state, same parameters, another series (wet or dry spell)
+		States: func(r *Rng, p []float64) []float64 {
+			return warmState(r, "Sacramento", p, r.Range(1, 60))
+		},
+	})
+}
+
+// warmState runs the real model from its own initial state over a drawn series and returns the final state row.
+func warmState(r *Rng, model string, p []float64, T int) []float64 {
+	k := &KCall{Model: model, Init: true, P: p, In: RainPet(r, T)}
+	return k.Run().S
+}
+
+func sacParams(r *Rng) []float64 {
+	frac := func() float64 {
+		switch r.Intn(12) {
+		case 0:
+			return 0
+		case 1:
+			return 1
+		}
+		return r.F01()
+	}
+	pctim := r.Uniform(0, 0.3)
+	adimp := r.Uniform(0, 0.4)
+	if r.Chance(0.15) {
+		adimp = 0
+	}
+	if r.Chance(0.1) {
+		pctim = 0
+	}
+	p := []float64{
+		r.LogUniform(1e-3, 1) * boolTo(r.Chance(0.95)), // lzpk
+		r.LogUniform(1e-3, 1) * boolTo(r.Chance(0.95)), // lzsk
+		frac(),                                  // uzk
+		Snap(r, r.Uniform(5, 125)),              // uztwm
+		Snap(r, r.Uniform(5, 75)),               // uzfwm
+		Snap(r, r.Uniform(10, 300)),             // lztwm
+		Snap(r, r.Uniform(5, 300)),              // lzfsm
+		Snap(r, r.Uniform(5, 600)),              // lzfpm
+		frac(),                                  // pfree
+		r.Uniform(0, 3),                         // rexp
+		r.Uniform(0, 80),                        // zperc
+		r.F01() * boolTo(r.Chance(0.6)),         // side
+		r.Uniform(0, 2) * boolTo(r.Chance(0.4)), // ssout
+		pctim,
+		adimp,
+		r.Uniform(0, 0.3) * boolTo(r.Chance(0.6)), // sarva
+		frac(),             // rserv
+		r.Uniform(0.05, 1), // uh1
+		r.F01() * boolTo(r.Chance(0.7)),
+		r.F01() * boolTo(r.Chance(0.6)),
+		r.F01() * boolTo(r.Chance(0.5)),
+		r.F01() * boolTo(r.Chance(0.5)),
+	}
+	if r.Chance(0.1) { // the documented defaults
+		p = []float64{0.01, 0.05, 0.3, 50, 40, 130, 25, 60, 0.06, 1, 40, 0, 0, 0.01, 0, 0, 0.3, 0.8, 0.1, 0.05, 0.03, 0.02}
+	}
+	return p
+}
+
+func boolTo(b bool) float64 {
+	if b {
+		return 1
+	}
+	return 0
 }
